@@ -188,8 +188,10 @@ func (w *c13world) close() {
 	w.n.Close()
 }
 
-func (w *c13world) lab(format string, a ...interface{}) { w.labels = append(w.labels, fmt.Sprintf(format, a...)) }
-func (w *c13world) pos() int                              { return len(w.labels) }
+func (w *c13world) lab(format string, a ...interface{}) {
+	w.labels = append(w.labels, fmt.Sprintf(format, a...))
+}
+func (w *c13world) pos() int { return len(w.labels) }
 func (w *c13world) surprise(format string, a ...interface{}) {
 	w.bad = append(w.bad, fmt.Sprintf(format, a...))
 }
